@@ -284,7 +284,6 @@ type stub struct {
 	started    bool
 	doneC      chan struct{}
 	srvErrC    chan error
-	cfgErrC    chan error
 	syncReq    *api.SynchronizeRequest
 
 	registrationTimeout time.Duration
@@ -391,7 +390,10 @@ func (stub *stub) Start(ctx context.Context) (retErr error) {
 		}
 	}()
 
-	api.RegisterPluginService(rpcs, stub)
+	// the outcome of configuring the plugin is reported per session, so that a Configure
+	// handler of an earlier session which finishes late cannot complete this Start()
+	cfgErrC := make(chan error, 1)
+	api.RegisterPluginService(rpcs, &pluginService{stub: stub, cfgErrC: cfgErrC})
 
 	conn, err := rpcm.Open(multiplex.RuntimeServiceConn)
 	if err != nil {
@@ -415,7 +417,6 @@ func (stub *stub) Start(ctx context.Context) (retErr error) {
 	}()
 
 	stub.srvErrC = make(chan error, 1)
-	stub.cfgErrC = make(chan error, 1)
 
 	go func(l stdnet.Listener, doneC chan struct{}, srvErrC chan error) {
 		srvErrC <- rpcs.Serve(ctx, l)
@@ -436,7 +437,7 @@ func (stub *stub) Start(ctx context.Context) (retErr error) {
 
 	// wait for getting configured, but not beyond the lifetime of the connection
 	select {
-	case err = <-stub.cfgErrC:
+	case err = <-cfgErrC:
 	case <-closedC:
 		err = errors.New("connection to NRI/Runtime lost before the plugin got configured")
 	}
@@ -624,6 +625,19 @@ func (stub *stub) UpdateContainers(update []*api.ContainerUpdate) ([]*api.Contai
 	return nil, err
 }
 
+// pluginService is the plugin service of one session (one Start()) of the stub.
+type pluginService struct {
+	*stub
+	cfgErrC chan error // result of Configure for the Start() of this session
+}
+
+// Configure the plugin and let the Start() of this session know the outcome.
+func (s *pluginService) Configure(ctx context.Context, req *api.ConfigureRequest) (*api.ConfigureResponse, error) {
+	rpl, err := s.stub.Configure(ctx, req)
+	s.cfgErrC <- err
+	return rpl, err
+}
+
 // Configure the plugin.
 func (stub *stub) Configure(ctx context.Context, req *api.ConfigureRequest) (rpl *api.ConfigureResponse, retErr error) {
 	var (
@@ -636,10 +650,6 @@ func (stub *stub) Configure(ctx context.Context, req *api.ConfigureRequest) (rpl
 
 	stub.registrationTimeout = time.Duration(req.RegistrationTimeout * int64(time.Millisecond))
 	stub.requestTimeout = time.Duration(req.RequestTimeout * int64(time.Millisecond))
-
-	defer func() {
-		stub.cfgErrC <- retErr
-	}()
 
 	if handler := stub.handlers.Configure; handler == nil {
 		events = stub.events
